@@ -111,6 +111,11 @@ def _sigma_case(rng, kind='sigma'):
         # pure collapsing: the target edges are some of the source edges (layers of unequal thickness are merged)
         keep = sorted(rng.sample(range(1, len(src) - 1), rng.randint(0, len(src) - 3)))
         dst = [src[0]] + [src[i] for i in keep] + [src[-1]]
+    if rng.random() < 0.25 and len(src) > 2:
+        # a target edge next to, but not on, an edge of the file (1/4096 away): it is the requested edge that counts
+        e = rng.choice(src[1:-1]) + rng.choice([1, -1]) * Fraction(1, 4096)
+        inner2 = sorted((set(dst[1:-1]) | {e}) - set(src[1:-1]) | {e}, reverse=True)
+        dst = [dst[0]] + [x for x in inner2 if dst[-1] < x < dst[0]] + [dst[-1]]
     c = dict(kind=kind, src=[lib.show_rat(v) for v in src], dst=[lib.show_rat(v) for v in dst])
     c['data'] = [str(rng.randint(-9, 9)) for _ in range(len(src) - 1)]
     return c
@@ -194,6 +199,18 @@ def gen(rng, tier):
             out.append(_interpdim_case(rng))
         else:
             out.append(_bpchsigma_case(rng) if i % 16 == 7 else _interpdim_case(rng))
+    # on every run: IOAPI interpSigma with a requested edge 1/4096 away from an edge of the file, both kinds, same top
+    found = 0
+    for _ in range(3000):
+        c = _sigma_case(rng, 'apply')
+        if any(Fraction(x).denominator == 4096 for x in c['dst']) and len(c['src']) >= 4:
+            c['itype'] = ['conserve', 'linear', 'conserve'][found]
+            c['vgtop'] = None
+            c['same'] = False
+            out.append(c)
+            found += 1
+            if found == 3:
+                break
     return out
 
 
